@@ -448,3 +448,66 @@ def c14(ctx, api):
             % (nvals, nvals, 16 if thorough else 9), st, summ)
     return acc.result(RULE_PINNED + '; assignments whose Go kind cannot hold a value exactly are skipped (counted in cases_skipped)',
                       extra={'cases_skipped_carrier_cannot_hold_value': sum(s.get('skipped', 0) for s in [summ])})
+
+
+# --------------------------------------------------------------------- C09
+@plan('C09')
+def c09(ctx, api):
+    acc = Acc()
+    thorough = ctx['tier'] == 'thorough'
+    ctx['harness_env'] = {'VERIF_DEEP': '5000000' if thorough else '100000'}
+    try:
+        st, summ = api['run_tlc_to_harness'](ctx, 'cost', 'GenCost', cfg(constants={'Emit': 'TRUE', 'Prop': '"C09"'}), timeout=3000,
+                                             harness_args=['-timeout', '60s' if thorough else '20s', '-workers', '8'])
+    finally:
+        ctx['harness_env'] = {}
+    acc.add('GenCost: 56 parameter positions x 5 magnitudes against the twin magnitude 1000; 8 nesting families scaled 64..8192 and one instance at depth %s'
+            % ('5,000,000' if thorough else '100,000'), st, summ)
+    # every generated case of the other machines also runs under the per-case time budget (hang detection)
+    st, summ = api['run_tlc_to_harness'](ctx, 'slices', 'GenSlice', cfg(constants={'Emit': 'TRUE', 'Prop': '"C09"', 'MaxN': 3}), timeout=3000)
+    acc.add('GenSlice with 64-bit limits under the per-case budget of 3 s', st, summ)
+    st, text = api['run_tlc_only'](ctx, 'lexmachine', 'LexMachine', open(os.path.join(ctx['root'], 'spec', 'LexMachine.cfg')).read(), timeout=1500)
+    if st['errors'] or st['rc'] != 0:
+        raise api['Broken']('LexMachine model check failed: %s' % st['errors'][:3])
+    acc.add('LexMachine: the tokeniser as a state machine -- position strictly increases, terminates in Lex(input)', st, None)
+    return acc.result('measured on the real code: each case is an expression with an integer parameter at a 64-bit magnitude and its twin '
+                      'at 1000 (same expected outcome by the huge-magnitude lemma): equal evaluator steps, time <= 50x + 20 ms, allocation '
+                      '<= 8x + 1 MiB of the twin; nesting families must grow at most ~quadratically; non-trivial = the twin outcome is pinned',
+                      level='exploration',
+                      extra={'model_checks': ['MagnitudeIndependent', 'NestLemma', 'LexProgress', 'LexAgrees'],
+                             'note': 'running time is not a model property; TLA+ supplies inputs, expected outcomes and progress measures'})
+
+
+# --------------------------------------------------------------------- C03
+@plan('C03')
+def c03(ctx, api):
+    acc = Acc()
+    thorough = ctx['tier'] == 'thorough'
+    root = ctx['root']
+    text = cfg(spec='HSpec', constants={'Emit': 'TRUE', 'Prop': '"C03"', 'Big': 'FALSE', 'KindsA': '{"json"}', 'KindsB': '{"json"}'},
+               invariants=('HCheck',))
+    st, summ = api['run_tlc_to_harness'](ctx, 'hostile', 'GenHostile', text, timeout=3000)
+    acc.add('GenHostile: 33 non-JSON / non-finite Go values at each of 5 leaf positions x 81 expressions', st, summ)
+    n = 6 if thorough else 5
+    text = cfg(constants={'Emit': 'TRUE', 'Prop': '"C03"', 'MaxLen': n, 'AlphaName': '"Bytes"'})
+    text = text.replace('CONSTANTS\n', 'CONSTANTS\n  Alpha <- AlphaBytes\n')
+    st, summ = api['run_tlc_to_harness'](ctx, 'bytes', 'GenChars', text, timeout=3000, harness_cmd='acceptset',
+                                         harness_args=['-alphabets', os.path.join(root, 'spec', 'pools', 'Alphabets.alph'),
+                                                       '-alpha', 'Bytes', '-maxlen', str(n), '-prop', 'C03'])
+    acc.add('GenChars Bytes alphabet (quotes, backslash, invalid UTF-8 byte, NUL, multi-byte characters): every concatenation of <= %d lexemes compiled' % n,
+            st, summ)
+    ctx['harness_env'] = {'VERIF_DEEP': '5000000' if thorough else '200000'}
+    try:
+        st, summ = api['run_tlc_to_harness'](ctx, 'deep', 'GenCost', cfg(constants={'Emit': 'TRUE', 'Prop': '"C03"'}), timeout=3000,
+                                             harness_args=['-only', 'scale', '-timeout', '120s', '-workers', '8'])
+    finally:
+        ctx['harness_env'] = {}
+    acc.add('nesting families (parentheses, !, index, flatten, pipe, multi-select, unary minus, ||) to depth %s' % ('5,000,000' if thorough else '200,000'), st, summ)
+    st, summ = api['run_tlc_to_harness'](ctx, 'call', 'GenCall', cfg(constants={'Emit': 'TRUE', 'Prop': '"C03"', 'Small': 15 if thorough else 9}), timeout=3000)
+    acc.add('GenCall: every function with every pool tuple (integer arguments at 0, +-1, fractions) -- a panic is outside every admissible set', st, summ)
+    st, summ = api['run_tlc_to_harness'](ctx, 'cost', 'GenCost', cfg(constants={'Emit': 'TRUE', 'Prop': '"C03"'}), timeout=3000,
+                                         harness_args=['-only', 'cost', '-workers', '8'])
+    acc.add('GenCost: integer parameters at the 64-bit limits in every position', st, summ)
+    return acc.result('a case passes when Compile / Search / Expression.Search return normally (value or error, error formats, no panic, no fatal '
+                      'runtime error, no hang); cases run in child processes so that a crash or hang is attributed to its input; non-trivial = '
+                      'the specification also pins the outcome', level='model_checking')
